@@ -93,7 +93,14 @@ class Env:
         text = g1.layout(g1.to_tokens(self.tree), sc.get("layout", []))
         self.text = text
         self.doc = parse(text, no_location=bool(sc.get("no_location")))
-        self.valid = not validate(self.schema, self.doc)
+        self.schema_rejected = None
+        try:
+            self.valid = not validate(self.schema, self.doc)
+        except TypeError as e:
+            # assert_valid_schema: the library rejects a schema that is valid by construction (the generator's
+            # claim is cross-checked by C20 against the reference rules R7 on the same models)
+            self.valid = False
+            self.schema_rejected = str(e)[:300]
 
 
 def run_impl(env, op_name, variables, oracle):
@@ -162,6 +169,10 @@ def eval_scenario(sc):
 
     env = Env(sc)
     if not env.valid:
+        if env.schema_rejected and sc["schema_mode"] != "sdl-invalid":
+            v = Violation(("C02", "valid-schema-rejected"), f"the library refuses to execute on a schema that is "
+                          f"valid by construction: {env.schema_rejected}", dict(sc), {"relation": "valid-schema-rejected"})
+            return [v], 0, "schema-rejected", []
         return [], 0, "generator-invalid", []
     vs = []
     n = 0
